@@ -114,6 +114,13 @@ CHECKS = {
             'unread; framing constants incl. TLS are compared with the reference frame overheads.',
             'Virtual-time FakeSerial (vlib/transports.py); Force Listen Only excluded; binary frames with delimiter bytes excluded.',
             'DESIGN.md 4 C14'),
+    'C15': ('hypothesis thread schedules executed by a deterministic baton scheduler with a schedule-aware lock + depth-first enumeration of all schedules for small shapes; oracle over the transport event log',
+            'Real threads share one real client over the scripted virtual-time transport; a baton-passing scheduler owns every '
+            'context switch (yield points at connect/send/receive and lock acquisition) and replays a generated schedule; the '
+            'transport log must show mutually exclusive transactions, whole frames and every caller receiving the reply computed '
+            'from its own request, with no deadlock; all schedules of small thread/transaction shapes are enumerated depth-first.',
+            'Pre-emption only at transport operations and lock acquisitions (as the property states).',
+            'DESIGN.md 4 C15'),
     'C17': ('hypothesis multi-connection scripts (interleaved chunk schedules) played to sync / asyncio / Twisted front-ends; differential oracle + reference model in completion order',
             'Generated scripts of 1..3 connections (or datagram peers) with chunked request streams and a generated merge '
             'order are played identically to the sync threaded (handler threads in lock-step), asyncio and Twisted front-ends; '
